@@ -1209,13 +1209,16 @@ bool amount_t::parse(std::istream& in, const parse_flags_t& flags)
     char *             t   = buf.get();
 
     while (*p) {
-      if (*p == ',' || *p == '.')
+      if (*p == ',' || *p == '.') {
         p++;
+        continue;
+      }
       *t++ = *p++;
     }
     *t = '\0';
 
-    mpq_set_str(MP(new_quantity.get()), buf.get(), 10);
+    if (mpq_set_str(MP(new_quantity.get()), buf.get(), 10) != 0)
+      throw_(amount_error, _("Invalid quantity in amount"));
     mpz_ui_pow_ui(temp, 10, new_quantity->prec);
     mpq_set_z(tempq, temp);
     mpq_div(MP(new_quantity.get()), MP(new_quantity.get()), tempq);
@@ -1226,7 +1229,8 @@ bool amount_t::parse(std::istream& in, const parse_flags_t& flags)
       std::free(amt_buf);
     }
   } else {
-    mpq_set_str(MP(new_quantity.get()), quant.c_str(), 10);
+    if (mpq_set_str(MP(new_quantity.get()), quant.c_str(), 10) != 0)
+      throw_(amount_error, _("Invalid quantity in amount"));
   }
 
   if (negative)
